@@ -101,6 +101,8 @@ pub struct GenCfg {
     pub settle_after_adoption: bool,
     /// chance out of 16 that a new arena has a bare root (no DynamicRootSet, no ZstCache)
     pub bare_bias: u32,
+    /// chance out of 16 that a new arena has a pointer-free root type
+    pub static_bias: u32,
 }
 
 pub struct Gen {
@@ -156,7 +158,8 @@ impl Gen {
         }
         let p = self.pick_pacing();
         let bare = self.rng.below(16) < self.cfg.bare_bias as usize;
-        Event::NewArena { a, root_set: w.sh.next_id, ops: vec![], p, fail, bare }
+        let static_root = self.rng.below(16) < self.cfg.static_bias as usize;
+        Event::NewArena { a, root_set: w.sh.next_id, ops: vec![], p, fail, bare, static_root }
     }
 
     pub fn next_event(&mut self, w: &World) -> Event {
